@@ -90,6 +90,10 @@ func sampleBytes(codec string, nals []cencNal, id int) []byte {
 		if codec == "audio" {
 			return tokenBytes(1, id, n.Len)
 		}
+		if n.Len == 0 { // a bare length field
+			out = append(out, be32(0)...)
+			continue
+		}
 		body := tokenBytes(1, id*8+k, n.Len)
 		switch codec {
 		case "avc":
@@ -126,6 +130,11 @@ func mFragmentX(seq, base int64, samples []mSample, payload []byte, extras strin
 		kids = append(kids, mTrun(1, 0xf01, off, 0, samples))
 		if extras == "all" || extras == "nouuid-in-traf" {
 			kids = append(kids, extraZzzz)
+		}
+		if extras == "all" {
+			// a roll-recovery sample group: sample groups other than seig are not protection signalling
+			kids = append(kids, mkBox("sbgp", []byte{0, 0, 0, 0}, []byte("roll"), be32(1), be32(int64(len(samples))), be32(1)),
+				mkBox("sgpd", []byte{1, 0, 0, 0}, []byte("roll"), be32(2), be32(1), []byte{0xff, 0xfe}))
 		}
 		mk := [][]byte{mMfhd(seq)}
 		if extras != "none" && extras != "seg-sidx" {
@@ -870,12 +879,17 @@ func (j *cencJob) beyondSaiz() bool {
 }
 
 func nalsOfSample(s []byte) []cencNal {
-	var out []cencNal
+	out := []cencNal{}
 	pos := 0
 	for pos+4 <= len(s) {
 		n := int(binary.BigEndian.Uint32(s[pos:]))
-		if pos+4+n > len(s) || n == 0 {
+		if pos+4+n > len(s) {
 			break
+		}
+		if n == 0 { // a bare length field
+			out = append(out, cencNal{Kind: "n", Len: 0})
+			pos += 4
+			continue
 		}
 		k := "n"
 		if s[pos+4]&0x1f <= 5 && s[pos+4]&0x1f >= 1 {
